@@ -1261,7 +1261,15 @@ fn special_cause(case: &Case, fired: &Fired) -> Option<String> {
         if msg.contains("convert file to utf8") {
             return Some("non-utf8-source-file".into());
         }
-        if msg.contains("convert to string") || msg.contains("canonicalize schema path") {
+        if msg.contains("convert to string") || msg.contains("canonicalize schema path") || msg.contains("that is not a file") {
+            // the schema / an extension file is not there (any more) when the loop reads it:
+            // same family as the removed-or-replaced findings
+            if msg.contains("schema-extension") {
+                return Some("extension-removed-or-replaced".into());
+            }
+            if msg.contains("schema.graphql") {
+                return Some("schema-removed-or-replaced".into());
+            }
             return Some("schema-or-extension-unreadable".into());
         }
         if msg.contains("traverse directory") || msg.contains("read file") {
